@@ -316,7 +316,65 @@ func checkFailingEncode(s *kit.Summary, cd codec, rs []vegeta.Result) (sawError 
 // ago (every result is encoded as it arrives, straight to the file), and after the process was killed the
 // file must decode to a clean prefix. Only lower bounds are asserted: at least one complete record in the
 // file three seconds after the 10th response went out.
-func runAttackCommand(c *run.Ctx, s *kit.Summary) {
+// prefillOutput puts something at the -output path before a command runs: nothing, junk, or a valid and
+// long result stream of an earlier run (attack name "previous-run").
+func prefillOutput(path, prefill string) {
+	os.Remove(path)
+	switch prefill {
+	case "junk":
+		b := make([]byte, 300000)
+		for i := range b {
+			b[i] = byte(i*7 + i/251)
+		}
+		os.WriteFile(path, b, 0o644)
+	case "old-results":
+		var buf bytes.Buffer
+		enc := vegeta.NewEncoder(&buf)
+		t0 := time.Now().Add(-time.Hour)
+		for i := 0; i < 4000; i++ {
+			enc.Encode(&vegeta.Result{Attack: "previous-run", Seq: uint64(i), Code: 200, Timestamp: t0.Add(time.Duration(i) * 40 * time.Millisecond),
+				Latency: time.Duration(300000 + i*37), BytesIn: 2, Body: []byte("ok"), Method: "GET", URL: "http://127.0.0.1:12345/",
+				Headers: http.Header{"Content-Length": {"2"}, "Content-Type": {"text/plain; charset=utf-8"}, "Date": {"Mon, 02 Jan 2006 15:04:05 GMT"}, "X-Served": {"1"}}})
+		}
+		os.WriteFile(path, buf.Bytes(), 0o644)
+	}
+}
+
+func gobCodec() codec {
+	for _, cd := range codecs {
+		if cd.name == "gob" {
+			return cd
+		}
+	}
+	panic("no gob codec")
+}
+
+// ownRecords: every record decoded from the output file must have been written by THIS run (attack name),
+// with distinct sequence numbers.
+func ownRecords(s *kit.Summary, in map[string]interface{}, got []vegeta.Result, name string) bool {
+	seen := map[uint64]bool{}
+	for i := range got {
+		if got[i].Attack != name {
+			s.Violate(kit.Violation{Kind: "output_foreign_record", What: "decoding the -output file returns a record that this run never wrote (left over from what the file held before)", Input: in,
+				Expected: "only records of attack " + name, Observed: fmt.Sprintf("record %d of %d: %s", i, len(got), gen.ResultLine(&got[i])), Key: map[string]interface{}{"codec": "gob"}})
+			return false
+		}
+		// results are written in completion order, so only distinctness of the sequence numbers is asserted
+		if seen[got[i].Seq] {
+			s.Violate(kit.Violation{Kind: "attack_output_not_clean_prefix", What: "the attack's output holds two records with the same sequence number", Input: in, Observed: gen.ResultLine(&got[i])})
+			return false
+		}
+		seen[got[i].Seq] = true
+	}
+	return true
+}
+
+// runAttackCommand: the attack command itself, end to end. `vegeta attack -output file` runs against a local
+// server; while it is still running the file must already hold the results of exchanges that finished long
+// ago (every result is encoded as it arrives, straight to the file), and after the process was killed the
+// file must decode to a clean prefix of what THIS run wrote — whatever the file held before (nothing, junk,
+// or the longer result stream of an earlier run). Only lower bounds are asserted on timing.
+func runAttackCommand(c *run.Ctx, s *kit.Summary, prefill string) {
 	if _, err := os.Stat(c.Vegeta); err != nil {
 		s.Skipped["attack-command: no vegeta binary"]++
 		return
@@ -329,8 +387,9 @@ func runAttackCommand(c *run.Ctx, s *kit.Summary) {
 	}))
 	defer srv.Close()
 	out := filepath.Join(c.Work, "attack-e2e.bin")
-	os.Remove(out)
-	cmd := exec.Command(c.Vegeta, "attack", "-rate=25/s", "-duration=20s", "-output", out)
+	prefillOutput(out, prefill)
+	name := "this-run-kill"
+	cmd := exec.Command(c.Vegeta, "attack", "-name", name, "-rate=25/s", "-duration=20s", "-output", out)
 	cmd.Env = append(os.Environ(), "VEGETA_VERIF_DRIVER=")
 	cmd.Stdin = strings.NewReader("GET " + srv.URL + "/\n")
 	if err := cmd.Start(); err != nil {
@@ -359,36 +418,146 @@ func runAttackCommand(c *run.Ctx, s *kit.Summary) {
 	cmd.Wait()
 	killed = true
 	after, _ := os.ReadFile(out)
-	var gobc codec
-	for _, cd := range codecs {
-		if cd.name == "gob" {
-			gobc = cd
+	gobc := gobCodec()
+	got, term := decodePrefix(gobc, while)
+	s.Case("attack-command:kill:"+prefill, true)
+	s.Count("attack-command:killed-run output-held-before=" + prefill)
+	in := map[string]interface{}{"command": "vegeta attack -name " + name + " -rate=25/s -duration=20s -output FILE (killed after ≥10 responses + 3 s)", "output_file_held_before": prefill,
+		"responses_served_three_seconds_before_reading": n0, "file_bytes_while_running": len(while), "file_bytes_after_kill": len(after)}
+	own := 0
+	for i := range got {
+		if got[i].Attack == name {
+			own++
 		}
 	}
-	got, term := decodePrefix(gobc, while)
-	s.Case("attack-command", true)
-	s.Count("attack-command:runs")
-	in := map[string]interface{}{"command": "vegeta attack -rate=25/s -duration=20s -output FILE (killed after ≥10 responses + 3 s)",
-		"responses_served_three_seconds_before_reading": n0, "file_bytes_while_running": len(while), "file_bytes_after_kill": len(after)}
-	if len(got) < 1 || term == "panic" {
-		s.Violate(kit.Violation{Kind: "attack_output_held_back", What: "the attack command does not write each result as it arrives: three seconds after the 10th response the output file holds no complete record",
-			Input: in, Expected: "≥ 1 complete record in the file while the attack is running", Observed: fmt.Sprintf("%d records then %s", len(got), term),
+	if own < 1 || term == "panic" {
+		s.Violate(kit.Violation{Kind: "attack_output_held_back", What: "the attack command does not write each result as it arrives: three seconds after the 10th response the output file holds no complete record of this run",
+			Input: in, Expected: "≥ 1 complete record in the file while the attack is running", Observed: fmt.Sprintf("%d records (%d of this run) then %s", len(got), own, term),
 			Key: map[string]interface{}{"codec": "gob"}})
 		return
 	}
 	got2, term2 := decodePrefix(gobc, after)
-	if len(got2) < len(got) || term2 == "panic" || term2 == "runaway" {
+	if own2 := len(got2); own2 < own || term2 == "panic" || term2 == "runaway" {
 		s.Violate(kit.Violation{Kind: "attack_output_not_clean_prefix", What: "the output file of a killed attack does not decode to a clean prefix", Input: in,
 			Observed: fmt.Sprintf("%d records then %s (while running: %d)", len(got2), term2, len(got))})
 	}
-	// results are written in completion order, so only distinctness of the sequence numbers is asserted
-	seen := map[uint64]bool{}
-	for i := range got2 {
-		if seen[got2[i].Seq] {
-			s.Violate(kit.Violation{Kind: "attack_output_not_clean_prefix", What: "the killed attack's output holds two records with the same sequence number", Input: in, Observed: gen.ResultLine(&got2[i])})
-			break
+	ownRecords(s, in, got2, name)
+}
+
+// runAttackComplete: a short attack that runs to its end onto an -output path that already holds something.
+// The file must then be exactly this run's stream: only its records, then end-of-stream.
+func runAttackComplete(c *run.Ctx, s *kit.Summary, prefill string) {
+	if _, err := os.Stat(c.Vegeta); err != nil {
+		s.Skipped["attack-command: no vegeta binary"]++
+		return
+	}
+	srv := httptest.NewServer(http.HandlerFunc(func(w http.ResponseWriter, _ *http.Request) {
+		w.Header().Set("X-Served", "1")
+		fmt.Fprint(w, "ok")
+	}))
+	defer srv.Close()
+	out := filepath.Join(c.Work, "attack-e2e-complete.bin")
+	prefillOutput(out, prefill)
+	name := "this-run-complete"
+	cmd := exec.Command(c.Vegeta, "attack", "-name", name, "-rate=40/s", "-duration=500ms", "-output", out)
+	cmd.Env = append(os.Environ(), "VEGETA_VERIF_DRIVER=")
+	cmd.Stdin = strings.NewReader("GET " + srv.URL + "/\n")
+	done := make(chan error, 1)
+	if err := cmd.Start(); err != nil {
+		s.Skipped["attack-command: cannot start"]++
+		return
+	}
+	go func() { done <- cmd.Wait() }()
+	select {
+	case err := <-done:
+		if err != nil {
+			s.Skipped["attack-command: short attack failed"]++
+			return
 		}
-		seen[got2[i].Seq] = true
+	case <-time.After(30 * time.Second):
+		cmd.Process.Kill()
+		<-done
+		s.Skipped["attack-command: short attack did not finish"]++
+		return
+	}
+	data, _ := os.ReadFile(out)
+	got, term := decodePrefix(gobCodec(), data)
+	s.Case("attack-command:complete:"+prefill, true)
+	s.Count("attack-command:completed-run output-held-before=" + prefill)
+	in := map[string]interface{}{"command": "vegeta attack -name " + name + " -rate=40/s -duration=500ms -output FILE (ran to its end)", "output_file_held_before": prefill, "file_bytes": len(data)}
+	if !ownRecords(s, in, got, name) {
+		return
+	}
+	if len(got) < 1 || term != "eof" {
+		s.Violate(kit.Violation{Kind: "output_not_this_runs_stream", What: "after a completed run the -output file does not decode to this run's records followed by end-of-stream (something of the file's earlier content is left)",
+			Input: in, Expected: "≥ 1 records of this run then eof", Observed: fmt.Sprintf("%d records then %s", len(got), term), Key: map[string]interface{}{"codec": "gob"}})
+	}
+}
+
+// runEncodeOverwrite: `vegeta encode -output P` twice to the same path, the second input shorter than the
+// first (and once onto junk): the file must decode to exactly the second run's records, then end-of-stream.
+func runEncodeOverwrite(c *run.Ctx, r *kit.Rng, s *kit.Summary, n int) {
+	if _, err := os.Stat(c.Vegeta); err != nil {
+		s.Skipped["encode-command: no vegeta binary"]++
+		return
+	}
+	var csvc codec
+	for _, cd := range codecs {
+		if cd.name == "csv" {
+			csvc = cd
+		}
+	}
+	hexs := func(x string) string { return kit.HexS(x) }
+	for i := 0; i < n; i++ {
+		to := codecs[i%len(codecs)]
+		long := append(genStream(r, csvc, -1), genStream(r, csvc, 0)...)
+		short := genStream(r, csvc, 0)
+		if i%4 == 3 { // same record sizes, fewer records: the shorter stream ends on a record boundary of the longer one
+			short = append([]vegeta.Result{}, long[:1+r.Pick(3)]...)
+		}
+		for j := range long {
+			long[j].Attack = "first-run"
+		}
+		for j := range short {
+			short[j].Attack = "second-run"
+			if i%4 == 3 {
+				short[j].Attack = "secnd-run" // same length as first-run
+			}
+		}
+		fa, fb := filepath.Join(c.Work, fmt.Sprintf("ow-%d-a.bin", i)), filepath.Join(c.Work, fmt.Sprintf("ow-%d-b.bin", i))
+		out := filepath.Join(c.Work, fmt.Sprintf("ow-%d-out", i))
+		sa, _ := encodeStream(gobCodec(), long)
+		sb, _ := encodeStream(gobCodec(), short)
+		os.WriteFile(fa, sa.data, 0o644)
+		os.WriteFile(fb, sb.data, 0o644)
+		before := "first-run output"
+		ops := []string{"encode " + hexs(to.name) + " " + hexs(out) + " " + hexs(fa), "encode " + hexs(to.name) + " " + hexs(out) + " " + hexs(fb)}
+		if (i/3)%3 == 2 {
+			before = "junk"
+			prefillOutput(out, "junk")
+			ops = ops[1:]
+		}
+		res, err := kit.RunVegeta(c.Vegeta, ops)
+		if err != nil || res[len(res)-1] != "ok" {
+			s.Skipped["encode-command: op failed"]++
+			continue
+		}
+		data, _ := os.ReadFile(out)
+		got, term := decodePrefix(to, data)
+		s.Case(fmt.Sprint("encode-overwrite:", i), true)
+		s.Count("encode-command:overwrite to=" + to.name + " output-held-before=" + before)
+		bad := len(got) != len(short) || term != "eof"
+		for j := 0; !bad && j < len(got); j++ {
+			bad = !gen.SameResult(&got[j], &short[j])
+		}
+		if bad {
+			s.Violate(kit.Violation{Kind: "output_not_this_runs_stream", What: "`vegeta encode -output P` onto an existing, longer file: P does not decode to exactly the records of this run followed by end-of-stream",
+				Input:    map[string]interface{}{"command": "encode -to " + to.name + " -output P", "output_file_held_before": before, "first_run_records": len(long), "this_run_records": len(short), "this_run_results": sb.Results},
+				Expected: fmt.Sprintf("%d records then eof", len(short)), Observed: gen.ResultsLine(got, term, false), Key: map[string]interface{}{"codec": to.name}})
+		}
+		os.Remove(fa)
+		os.Remove(fb)
+		os.Remove(out)
 	}
 }
 
@@ -604,6 +773,9 @@ func runC09(c *run.Ctx, s *kit.Summary) {
 	}
 	runFailingEncode(r, s, c.N(40, 600))
 	for i := 0; i < c.N(1, 3); i++ {
-		runAttackCommand(c, s)
+		runAttackCommand(c, s, []string{"old-results", "none", "junk"}[(i+int(c.Seed))%3])
 	}
+	runAttackComplete(c, s, "old-results")
+	runAttackComplete(c, s, "junk")
+	runEncodeOverwrite(c, r, s, c.N(24, 300))
 }
